@@ -37,7 +37,7 @@ VARIANTS = [
              "        if not self.started:\n            yield from self.visit(loop.statements)\n        else:\n            for n in range(loop.iterations):\n                yield from self.visit(loop.statements)")],
            ("C03",)),
     fire("r4-cached-workspace",
-         [(UN, "        inp = numpy.empty(hilb_dim, dtype=complex)\n        vec = numpy.zeros(hilb_dim, dtype=complex)\n", "        inp, vec = _workspace(hilb_dim)\n        vec[:] = 0\n"),
+         [(UN, "            inp = numpy.empty(hilb_dim, dtype=complex)\n            vec = numpy.zeros(hilb_dim, dtype=complex)\n", "            inp, vec = _workspace(hilb_dim)\n            vec[:] = 0\n"),
           (UN, "\nclass EmulatorSubcircuit(", "\nfrom functools import lru_cache\n\n\n@lru_cache(maxsize=None)\ndef _workspace(hilb_dim):\n    return (numpy.empty(hilb_dim, dtype=complex), numpy.empty(hilb_dim, dtype=complex))\n\n\nclass EmulatorSubcircuit(")],
          ("*", "_workspace:cached-mutable"), ("C03", "C16")),
 ]
